@@ -239,12 +239,12 @@ def check_fixed_in_subprocess(flags):
 
 def plan(tier):
     jobs = [{"part": "interp", "flags": ["-O"]}, {"part": "interp", "flags": ["-OO"]}, {"part": "interp", "flags": []}]
-    n = 8 if tier == "quick" else 32
+    n = 8 if tier == "quick" else 64
     for _ in range(n):
-        jobs.append({"part": "valid", "examples": 900 if tier == "quick" else 8000})
-        jobs.append({"part": "corrupt", "examples": 600 if tier == "quick" else 4000})
+        jobs.append({"part": "valid", "examples": 900 if tier == "quick" else 24000})
+        jobs.append({"part": "corrupt", "examples": 600 if tier == "quick" else 12000})
     for _ in range(4 if tier == "quick" else 16):
-        jobs.append({"part": "driver", "examples": 120 if tier == "quick" else 600})
+        jobs.append({"part": "driver", "examples": 120 if tier == "quick" else 2500})
     return jobs
 
 
